@@ -53,9 +53,8 @@ func (g *Gen) call(v ssa.Value, c *ssa.CallCommon, st *State) *State {
 	// as read-only copies (abstraction, reported)
 	for _, a := range c.Args {
 		if pl := g.places[a]; pl != nil && !pl.Struct {
-			if _, done := g.vals[a]; done {
-				continue
-			}
+			// (a fresh snapshot for every call: an earlier copy may have been
+			// havocked by a loop or call in between)
 			et := deref(a.Type())
 			if et == nil || !isAggregate(et) {
 				continue
@@ -77,6 +76,7 @@ func (g *Gen) call(v ssa.Value, c *ssa.CallCommon, st *State) *State {
 			g.safety("nilcall", g.curInstr, fmt.Sprintf("(not (= %s nil.iface))", g.val(c.Value)))
 		}
 		args = append([]ssa.Value{c.Value}, c.Args...)
+		st = g.bumpCounters(ifaceKey(c.Method), st)
 		con := g.prog.IfaceContract(c.Method)
 		name := "invoke " + c.Value.Type().String() + "." + c.Method.Name()
 		if con == nil {
@@ -96,6 +96,13 @@ func (g *Gen) call(v ssa.Value, c *ssa.CallCommon, st *State) *State {
 	if cl, ok := g.clos[c.Value]; ok {
 		return g.staticCall(v, cl.Fn.(*ssa.Function), args, cl.Bindings, st)
 	}
+	// a local func variable assigned one of several closure literals (phi of
+	// MakeClosure): case split on the edge the phi took
+	if phi, ok := c.Value.(*ssa.Phi); ok {
+		if st2, ok := g.phiClosureCall(v, phi, args, st); ok {
+			return st2
+		}
+	}
 	// dynamic call through a function value: parameter contract?
 	if pc := g.funcParamContract(c.Value); pc != nil {
 		argTV := make([]TV, len(args))
@@ -114,6 +121,75 @@ func (g *Gen) call(v ssa.Value, c *ssa.CallCommon, st *State) *State {
 		return g.applyContractTV(v, pc, c.Signature(), argTV, extra, st, strings.TrimPrefix(pc.Name, "field "), args)
 	}
 	return g.unknownCall(v, "dynamic "+c.Value.Name(), c.Signature(), args, st, nil)
+}
+
+// phiClosureCall: call of a phi whose incoming values are all closure literals.
+// Each alternative is executed (contract or inlining) under the condition that
+// control entered the phi's block through the corresponding edge; results and
+// states are joined on those conditions.
+func (g *Gen) phiClosureCall(v ssa.Value, phi *ssa.Phi, args []ssa.Value, st *State) (*State, bool) {
+	b := phi.Block()
+	if g.loops[b] != nil || g.depth > 0 {
+		return nil, false
+	}
+	var mcs []*ssa.MakeClosure
+	for i, e := range phi.Edges {
+		mc, ok := e.(*ssa.MakeClosure)
+		if !ok {
+			if mc = g.clos[e]; mc == nil {
+				return nil, false
+			}
+		}
+		if _, reached := g.reach[b.Preds[i]]; !reached {
+			return nil, false
+		}
+		mcs = append(mcs, mc)
+	}
+	saved := g.reach[g.curBlock]
+	var conds []Term
+	var states []*State
+	var single []Term
+	var tuples [][]Term
+	for i, mc := range mcs {
+		cond := fmt.Sprintf("(and %s %s)", saved, g.edge(b.Preds[i], b))
+		g.reach[g.curBlock] = cond
+		delete(g.vals, v)
+		delete(g.tuples, v)
+		si := g.staticCall(v, mc.Fn.(*ssa.Function), args, mc.Bindings, st)
+		g.reach[g.curBlock] = saved
+		if si == nil {
+			return nil, false
+		}
+		conds = append(conds, cond)
+		states = append(states, si)
+		if v != nil {
+			single = append(single, g.vals[v])
+			tuples = append(tuples, g.tuples[v])
+		}
+	}
+	if v != nil {
+		delete(g.vals, v)
+		delete(g.tuples, v)
+		if tuples[0] != nil {
+			n := len(tuples[0])
+			res := make([]Term, n)
+			tup := v.Type().(*types.Tuple)
+			for k := 0; k < n; k++ {
+				res[k] = g.fresh("phicall", g.u.SortOf(tup.At(k).Type()))
+				for i := range mcs {
+					g.assert(fmt.Sprintf("(=> %s (= %s %s))", conds[i], res[k], tuples[i][k]))
+				}
+			}
+			g.tuples[v] = res
+		} else if single[0] != "" {
+			r := g.fresh("phicall", g.u.SortOf(v.Type()))
+			for i := range mcs {
+				g.assert(fmt.Sprintf("(=> %s (= %s %s))", conds[i], r, single[i]))
+			}
+			g.vals[v] = r
+		}
+	}
+	return g.joinStates(states, conds), true
 }
 
 // funcParamContract: contract named "<Func>@<param>" describes a function-typed parameter.
@@ -155,7 +231,18 @@ func (g *Gen) rootFn() *ssa.Function {
 }
 
 func (g *Gen) staticCall(v ssa.Value, fn *ssa.Function, args []ssa.Value, bindings []ssa.Value, st *State) *State {
+	return g.bumpOkCounters(FuncKey(fn), v, g.staticCall0(v, fn, args, bindings, st))
+}
+
+func (g *Gen) staticCall0(v ssa.Value, fn *ssa.Function, args []ssa.Value, bindings []ssa.Value, st *State) *State {
 	if st2, ok := g.modelCall(v, fn, args, st); ok {
+		return st2
+	}
+	st = g.bumpCounters(FuncKey(fn), st)
+	if st2, ok := g.updateCallThrough(v, fn, args, st); ok {
+		return st2
+	}
+	if st2, ok := g.errorsIsConst(v, fn, args, st); ok {
 		return st2
 	}
 	con := g.prog.ContractFor(fn)
@@ -329,6 +416,12 @@ func (g *Gen) applyContractFV(v ssa.Value, con *spec.FuncContract, fn *ssa.Funct
 }
 
 func (g *Gen) applyContractTV(v ssa.Value, con *spec.FuncContract, sig *types.Signature, args []TV, extra map[string]TV, st *State, name string, ssaArgs []ssa.Value) *State {
+	post, _ := g.applyContractRes(v, con, sig, args, extra, st, name, ssaArgs)
+	return post
+}
+
+// applyContractRes is applyContractTV that also returns the result terms.
+func (g *Gen) applyContractRes(v ssa.Value, con *spec.FuncContract, sig *types.Signature, args []TV, extra map[string]TV, st *State, name string, ssaArgs []ssa.Value) (*State, []Term) {
 	g.assumed[con.Pkg+"::"+con.Name] = true
 	if len(con.Params) != len(args) {
 		g.fail("contract of %s lists %d parameters, call has %d", name, len(con.Params), len(args))
@@ -362,9 +455,19 @@ func (g *Gen) applyContractTV(v ssa.Value, con *spec.FuncContract, sig *types.Si
 	if i := strings.LastIndex(short, "/"); i >= 0 {
 		short = short[i+1:]
 	}
+	preUnproved := false
 	for _, r := range con.Requires {
 		goal := g.evalBool(pre, r.Expr, r.Src)
-		g.rootGen().deferObl("pre", sanitize(short)+"."+r.Label, g.reach[g.curBlock], goal, r.Src)
+		label := sanitize(short) + "." + r.Label
+		if SkipClauses[g.rootGen().name+"#pre."+label] {
+			// this precondition does not discharge on the unchanged tree: it is
+			// still generated (and reported as not claimed), but nothing after
+			// the call may rely on it or on the callee's postconditions
+			g.rootGen().deferObl("pre", label, g.prefix(), fmt.Sprintf("(=> %s %s)", g.reach[g.curBlock], goal), r.Src)
+			preUnproved = true
+			continue
+		}
+		g.check("pre", label, g.reach[g.curBlock], goal, r.Src)
 	}
 	// frame
 	post := st
@@ -375,6 +478,9 @@ func (g *Gen) applyContractTV(v ssa.Value, con *spec.FuncContract, sig *types.Si
 		} else {
 			post = g.havocSet(st, mods, "c")
 			post = g.havocWritten(post, g.lastWritten)
+			if !con.Trusted && !con.Iface && mods[lockGhostKey(g.u, g.prog)] {
+				g.assumeLockFrame(st, post, g.lastLocks)
+			}
 		}
 	}
 	res := g.havocResults(short, sig, post)
@@ -401,11 +507,14 @@ func (g *Gen) applyContractTV(v ssa.Value, con *spec.FuncContract, sig *types.Si
 			if tv.Sort == "Slice" {
 				t = fmt.Sprintf("(s.base %s)", tv.T)
 			}
-			g.assert(fmt.Sprintf("(=> %s (> %s %s))", g.reach[g.curBlock], t, g.top(st)))
+			g.assert(fmt.Sprintf("(=> %s (> %s %s))", g.guarded(g.reach[g.curBlock]), t, g.top(st)))
 		}
 	}
 	verified := !con.Trusted && !con.Iface && !strings.Contains(con.Name, "@") && !strings.HasPrefix(con.Name, "field ")
 	for _, e := range con.Ensures {
+		if preUnproved {
+			break
+		}
 		if verified {
 			// a clause of a verified callee is assumed only if it is itself
 			// discharged (SkipClauses = clauses that are not)
@@ -416,10 +525,10 @@ func (g *Gen) applyContractTV(v ssa.Value, con *spec.FuncContract, sig *types.Si
 			g.usedClauses[cn] = true
 		}
 		t := g.evalBool(env, e.Expr, e.Src)
-		g.assert(fmt.Sprintf("(=> %s %s)", g.reach[g.curBlock], t))
+		g.assert(fmt.Sprintf("(=> %s %s)", g.guarded(g.reach[g.curBlock]), t))
 	}
 	g.bindResults(v, res)
-	return post
+	return post, res
 }
 
 // contractMods: components to havoc at a call governed by contract con.
@@ -434,6 +543,7 @@ func (g *Gen) contractMods(con *spec.FuncContract, args []ssa.Value) (map[string
 	m := copySet(ce.comps)
 	m[TopKey] = true
 	g.lastWritten = ce.written
+	g.lastLocks = ce.locks
 	return m, ce.all
 }
 
@@ -561,6 +671,9 @@ func (g *Gen) unknownCall(v ssa.Value, name string, sig *types.Signature, args [
 					post = g.havocObject(post, args[i])
 				}
 			}
+			if m[lockGhostKey(g.u, g.prog)] {
+				g.assumeLockFrame(st, post, e.locks)
+			}
 		}
 		g.uncontracted[displayName(fn)] = true
 	} else {
@@ -653,9 +766,15 @@ func (g *Gen) instrMods(in ssa.Instruction) (map[string]bool, bool) {
 		}
 	case ssa.CallInstruction:
 		return g.prog.callMods(g.u, x.Common(), g.fn)
-	case *ssa.Next, *ssa.Range:
-		for _, gh := range []string{"$rangeSeen"} {
-			_ = gh
+	case *ssa.Range:
+		if mt, ok := types.Unalias(x.X.Type()).Underlying().(*types.Map); ok {
+			mods[g.seenComp(x, g.u.SortOf(mt.Key()))] = true
+		}
+	case *ssa.Next:
+		if r, ok := x.Iter.(*ssa.Range); ok {
+			if mt, ok := types.Unalias(r.X.Type()).Underlying().(*types.Map); ok {
+				mods[g.seenComp(r, g.u.SortOf(mt.Key()))] = true
+			}
 		}
 	}
 	return mods, false
